@@ -4,7 +4,7 @@
 use binrw::{BinReaderExt, BinResult, binread};
 use half::f16;
 use std::ffi::CString;
-use std::io::SeekFrom;
+use std::io::{Read, SeekFrom};
 
 pub(crate) fn read_bool_from<T: std::convert::From<u8> + std::cmp::PartialEq>(x: T) -> bool {
     x == T::from(1u8)
@@ -12,6 +12,31 @@ pub(crate) fn read_bool_from<T: std::convert::From<u8> + std::cmp::PartialEq>(x:
 
 pub(crate) fn write_bool_as<T: std::convert::From<u8>>(x: &bool) -> T {
     if *x { T::from(1u8) } else { T::from(0u8) }
+}
+
+/// Reads exactly `count` bytes, without reserving room for them before they have actually been read
+/// (the count usually comes straight from the file).
+#[binrw::parser(reader)]
+pub(crate) fn read_counted_bytes(count: u64) -> BinResult<Vec<u8>> {
+    let mut data = Vec::new();
+    reader.by_ref().take(count).read_to_end(&mut data)?;
+    if data.len() as u64 != count {
+        return Err(binrw::Error::Io(std::io::ErrorKind::UnexpectedEof.into()));
+    }
+    Ok(data)
+}
+
+/// Reads exactly `count` 16-bit values, without reserving room for them before they have actually been read.
+#[binrw::parser(reader, endian)]
+pub(crate) fn read_counted_u16s(count: u64) -> BinResult<Vec<u16>> {
+    let bytes = read_counted_bytes(reader, endian, (count.saturating_mul(2),))?;
+    Ok(bytes
+        .chunks_exact(2)
+        .map(|x| match endian {
+            binrw::Endian::Little => u16::from_le_bytes([x[0], x[1]]),
+            binrw::Endian::Big => u16::from_be_bytes([x[0], x[1]]),
+        })
+        .collect())
 }
 
 pub(crate) fn read_string(byte_stream: Vec<u8>) -> String {
